@@ -202,6 +202,11 @@ func Run(r *rep.Run) {
 			if truncated {
 				want = wire.Set(want, "Msg", reflect.ValueOf(m).FieldByName("Msg").String()[:wire.MaxMsg])
 			}
+			if mv := reflect.ValueOf(m); mv.Kind() == reflect.Struct && mv.FieldByName("Msg").IsValid() && mv.FieldByName("ResultCode").IsValid() &&
+				mv.FieldByName("ResultCode").Uint() != 0 {
+				// the v1 layout carries the message only when the result code is Failed: with any other code it is not on the wire
+				want = wire.Set(want, "Msg", "")
+			}
 			if !truncated {
 				if !reflect.DeepEqual(wire.Norm(dec), wire.Norm(want)) {
 					r.Violate(sig("roundtrip"), "Decode(Encode(m)) = m", tc, fmt.Sprintf("got %s want %s", short(dec), short(want)))
